@@ -8,6 +8,7 @@ import (
 
 func workersRules(c *Ctx) {
 	c.delegates("(*Workers).Wrap$ret1", "(*Workers).Call", "recv", "p1", "p2")
+	c.returnsField("(*Workers).Count", "Workers.count", "Count must report the number of live workers (zero after Wait)")
 	P := c.P
 	if q := c.F("(*Workers).Call"); q.ok() {
 		w, cnt := q.param(0), q.param(1)
